@@ -15,7 +15,8 @@ CONSTANTS Depth, MaxApiStreak, MaxDestr,
 \* In the roll theme an activation that has become possible is the next API
 \* operation (a uniform random walk seldom gets that far otherwise).
 RollFirst == "roll" \in Ops
-RollReady == \E c \in Sub : exists[c] /\ rc[c] = "roll_new" /\ CanActivate(c)
+RollReady == \E c \in Sub : /\ IsCa(c) /\ exists[c] /\ RollSlots(c) # {}
+                             /\ \A s \in RollSlots(c) : CanActivate(s)
 
 VARIABLES hist, streak, settling, dirty, destr
 
@@ -33,6 +34,8 @@ DelName(r) == IF IsRtr(r) THEN "RtrDel" ELSE "RoaDel"
 NoAspa == {}
 ProvOf(x) == IF x[2] = "prov:a2" THEN <<"a2">> ELSE <<"a2", "a3">>
 GenChain == [c \in Sub |-> IF c = "B" THEN "A" ELSE IF c = "C" THEN "B" ELSE "A"]
+\* (with Sub = {"B", "C", "C2"} and CaOf = SecondSlots the same function makes
+\* A the second parent of C: C holds resources from B and from A directly)
 
 SetToSeq(S) ==
     LET RECURSIVE F(_)
@@ -40,11 +43,13 @@ SetToSeq(S) ==
                 ELSE LET x == CHOOSE y \in T : TRUE IN <<x>> \o F(T \ {x})
     IN F(S)
 
+\* (the harness matches the name of a ResourceClassRemoved task up to the
+\* class name, which the CA numbers in the order of creation)
 TaskName(t) ==
     IF t[1] = "sync_repo" THEN "sync_repo_" \o t[2]
     ELSE IF t[1] = "sync_parent"
-    THEN "sync_" \o t[2] \o "_with_parent_" \o parent[t[2]]
-    ELSE "resource_class_removed_ca_" \o t[2] \o "_parent_" \o parent[t[2]] \o "_rcn_0"
+    THEN "sync_" \o CaOf[t[2]] \o "_with_parent_" \o parent[t[2]]
+    ELSE "resource_class_removed_ca_" \o CaOf[t[2]] \o "_parent_" \o parent[t[2]] \o "_rcn_0"
 
 GenInit == Init /\ hist = <<>> /\ streak = 0 /\ settling = FALSE /\ dirty = FALSE /\ destr = 0
 
@@ -58,6 +63,14 @@ GenApiAny ==
     \/ \E c \in Sub, R \in SUBSET Res :
          AddCa(c, ParentOf[c], R)
          /\ Api([a |-> "AddCa", c |-> c, p |-> ParentOf[c], res |-> SetToSeq(R)])
+    \/ "parents" \in Ops /\ \E s \in Sub :
+         \* (not while the revocation requests of a class that has just been
+         \* removed are still to be sent: known finding, see Dangling)
+         \/ /\ RemoveParent(s) /\ RM(s) \notin tasks
+            /\ Api([a |-> "RemoveParent", c |-> s, p |-> parent[s]])
+         \/ \E R \in SUBSET Res :
+              /\ AddParent(s, ParentOf[s], R)
+              /\ Api([a |-> "AddParent", c |-> s, p |-> ParentOf[s], res |-> SetToSeq(R)])
     \/ "res" \in Ops /\ \E c \in Sub, R \in SUBSET Res :
          ChildRes(c, R)
          /\ Api([a |-> "ChildRes", c |-> c, p |-> parent[c], res |-> SetToSeq(R)])
@@ -146,6 +159,8 @@ DepthBound == Len(hist) <= Depth
 
 PrintBehaviour ==
     (Len(hist) >= Depth /\ ~settling)
-    => PrintT(<<"REPLAY", ToJson([top |-> SetToSeq(TopRes), mftdue |-> MftDue, objdue |-> ObjDue,
+    => PrintT(<<"REPLAY", ToJson([top |-> SetToSeq(TopRes),
+                                  slots |-> SetToSeq({<<s, CaOf[s]>> : s \in {t \in AllCA : CaOf[t] # t}}),
+                                  mftdue |-> MftDue, objdue |-> ObjDue,
                                   actions |-> Append(hist, [a |-> "Settle"])])>>)
 =============================================================================
